@@ -242,6 +242,10 @@ def explore(ctx):
         ctx.count("item-iteration")
         it.append(ir.trace_term(i, e, mode, [i, st]))
         ik.append((i, e, mode, st))
+        if i["req"] == "pending" and st["req"] == "completed" and not (st["dst_row"] is not None and st["dst_row"][0] == "Y" and st["dst_disk"] == "good"):
+            ctx.fail("C08:completed-without-copy", f"one iteration completed the request from {i}, but the destination copy is {st['dst_row']} with bytes {st['dst_disk']}", {"family": "item", "item": i, "env": e, "mode": mode})
+        if st["dst_row"] is not None and st["dst_row"][0] == "N" and st["dst_disk"] is not None and (i["dst_disk"] is None or (i["dst_row"] is not None and i["dst_row"][0] != "N")):
+            ctx.fail("C08:removed-still-on-disk", f"one iteration took {i} to {st}: the destination copy is recorded absent but a file is there", {"family": "item", "item": i, "env": e, "mode": mode})
         if not ir.backed(i) and ir.backed(st):
             ctx.fail("C08:agreement-lost", f"one uninterrupted iteration took {i} to {st}: {ir.backed(st)}", {"family": "item", "item": i, "env": e, "mode": mode})
     bad = core.run_cases(ctx, "itemc08", "Corr.Item", "case", "check", it, shard=250, extra_imports=("Model.Item", "Model.Pull"))
